@@ -4,11 +4,11 @@ CONSTANTS
   MaxSlot = 7
   MaxGen = 2
   MaxFaults = 1
-  MaxPersist = 1
+  MaxPersist = 2
   Variants = 2
   Kinds = {"att", "blk"}
-  FaultKinds = {"crash", "crashafter", "fail", "rerr", "rmiss"}
-  Weaken = "noUpdate"
+  FaultKinds = {"crash", "crashafter", "fail", "failall", "rerr", "rmiss"}
+  Weaken = "saveErrSwallowed"
 INVARIANT NoDoubleVote
 INVARIANT NoSurround
 INVARIANT NoDoubleBlock
